@@ -265,9 +265,11 @@ def _values(rec, snap, arm, key_case, changed):
         rec.arm("value:folded-step")
         rec.arm("value:fold-resolved-exactly" if n_res == n_new else "value:fold-unresolved")
         EPISODE["folded"] = True   # matters only for comparisons with the START of an episode
-    # before and after of ONE step share every older folded constant, so only this step's own
-    # new floats can make an exact comparison fail for rounding reasons
-    tol = n_new > 0
+    # exact first; the tolerance is the fallback whenever this lineage contains folded floats at
+    # all: one double can stand for different exact values at different places (1.0 from
+    # '10 * 0.1' and 1.0 from folding that constant cubed), so the exactification map is a
+    # best effort, not an invariant
+    tol = n_new > 0 or bool(X.EXACT) or EPISODE["folded"]
     snap["xbefore"], snap["xafter"] = X.exactify(before), X.exactify(after)
     names = S.variables(before) | S.variables(after)
     if S.has_nonfinite(before):
